@@ -1,0 +1,51 @@
+//go:build verif
+
+package pokertable
+
+import (
+	"github.com/weedbox/pokertable/open_game_manager"
+	"github.com/weedbox/pokertable/seat_manager"
+)
+
+// Read-only accessors used by the verification harness (build tag "verif").
+// They expose the engine's seat manager, open-game manager and the state of
+// the auto-join ready group so that table-visible state can be compared with
+// them and the harness can wait for quiescence without sleeping.
+
+type VerifHooks struct {
+	te *tableEngine
+}
+
+func VerifHooksOf(engine TableEngine) *VerifHooks {
+	te, ok := engine.(*tableEngine)
+	if !ok {
+		return nil
+	}
+	return &VerifHooks{te: te}
+}
+
+func (h *VerifHooks) SeatManager() seat_manager.SeatManager {
+	return h.te.sm
+}
+
+func (h *VerifHooks) OpenGameManager() open_game_manager.OpenGameManager {
+	return h.te.ogm
+}
+
+func (h *VerifHooks) AutoJoinStates() map[int64]bool {
+	return h.te.rg.GetParticipantStates()
+}
+
+func (h *VerifHooks) IsReleased() bool {
+	return h.te.isReleased
+}
+
+// TryLock reports whether the engine lock is free at this moment (and
+// releases it again at once).
+func (h *VerifHooks) TryLock() bool {
+	if h.te.lock.TryLock() {
+		h.te.lock.Unlock()
+		return true
+	}
+	return false
+}
